@@ -83,7 +83,9 @@ class Set(Container):
 
     def __str__(self) -> str:
         try:
-            return "{%s}" % ", ".join(map(str, self._value))  # This is recursive.
+            # The iteration order of the underlying set depends on how it was built (and, for strings, on the hash seed);
+            # the elements are ordered so that equal sets always have the same string form. This is recursive.
+            return "{%s}" % ", ".join(sorted(map(str, self._value)))
         except (AttributeError, TypeError):  # pragma: no cover
             return "Set(UNINITIALIZED)"
 
